@@ -258,8 +258,8 @@ func sameGrouping(a, b []ArchD) bool { return fmt.Sprint(a) == fmt.Sprint(b) }
 func genHistory(r *gal.Rand, i int) *History {
 	// the mix: two in five universes carry install_if packages (the install_if
 	// loop is deterministic since fix c03e0c0, so all of them are compared with the
-	// model); one in seven histories regroups its indexes (outside the envelope of
-	// c08_history_independent: C08-F2)
+	// model); one in seven histories regroups its indexes (the scenario of the former
+	// finding C08-F2, fixed by 3541d7b: inside the envelope now)
 	if i%8 == 2 {
 		return genOneKey(r, i%3 == 2)
 	}
@@ -333,7 +333,7 @@ func genHistoryOpts(r *gal.Rand, i int, iif, regroup bool) *History {
 		}
 	}
 	if regroup {
-		// the same indexes under a second grouping (outside the envelope: C08-F2)
+		// the same indexes under a second grouping (was outside the envelope: C08-F2, fixed)
 		l := gal.Pick(r, lists)
 		if len(l) >= 2 {
 			groups = append(groups, []ArchD{{"x86_64", l}}, []ArchD{{"aarch64", l[:1]}, {"x86_64", l[1:]}})
